@@ -619,7 +619,7 @@ def fdiv(a, b):
 
 def fsqrt(x):
     if isinstance(x, SF) or is_sym(x):
-        raise Unsupported("sqrt of a symbolic value")
+        return SF.of(x) ** 0.5
     x = float(x)
     return x ** 0.5 if x >= 0 else float("nan")
 
